@@ -607,32 +607,73 @@ func provePhiSplit(fn *ssa.Function, in ssa.Instruction, goalIdx int) bool {
 // phiSplitWith: for a non-loop φ the site depends on, prove the goal separately for each incoming edge,
 // with that edge's guards and φ replaced by the incoming value.
 func phiSplitWith(fn *ssa.Function, in ssa.Instruction, goalIdx int, extra func(*prover)) bool {
-	for _, ph := range phisIn(in) {
-		if isLoopHeaderPhi(ph) {
-			continue
-		}
-		all := true
-		for e, pr := range ph.Block().Preds {
-			q := proveAt(fn, in)
-			ctx := contextAtEdge(fn, pr, ph.Block())
+	return phiSplitRec(fn, in, goalIdx, extra, nil, nil, 2)
+}
+
+// phiSplitRec: the goal under the substitution σ (φ ↦ the value it takes on one chosen edge, for every φ split so
+// far) and the facts of those edges; when that fails and depth allows, split one more merge φ — one the site mentions,
+// or one a chosen edge value is — and require the goal on each of its edges.  (Chains such as
+// `if x > n { x = n }; if x < 0 { x = 0 }` need one split per clamp.)
+func phiSplitRec(fn *ssa.Function, in ssa.Instruction, goalIdx int, extra func(*prover), subst map[ssa.Value]ssa.Value, ctxs []*prover, depth int) bool {
+	if subst != nil {
+		q := proveAt(fn, in)
+		for _, ctx := range ctxs {
 			q.facts = append(q.facts, ctx.facts...)
 			for k, v := range ctx.atoms {
 				q.atoms[k] = v
 			}
-			if extra != nil {
-				extra(q)
+		}
+		if extra != nil {
+			extra(q)
+		}
+		q.subst = subst
+		goals, _, _, _ := boundsGoals(q, in)
+		if goalIdx < len(goals) && q.prove(goals[goalIdx]) {
+			return true
+		}
+	}
+	if depth == 0 {
+		return false
+	}
+	var cands []*ssa.Phi
+	seen := map[*ssa.Phi]bool{}
+	add := func(ph *ssa.Phi) {
+		if _, done := subst[ph]; done || seen[ph] || isLoopHeaderPhi(ph) {
+			return
+		}
+		seen[ph] = true
+		cands = append(cands, ph)
+	}
+	for _, ph := range phisIn(in) {
+		add(ph)
+	}
+	for _, v := range subst {
+		if ph, ok := v.(*ssa.Phi); ok {
+			add(ph)
+		}
+	}
+	for _, ph := range cands {
+		all := true
+		for e, pr := range ph.Block().Preds {
+			ns := map[ssa.Value]ssa.Value{}
+			for k, v := range subst {
+				ns[k] = v
 			}
-			q.subst = map[ssa.Value]ssa.Value{ph: ph.Edges[e]}
 			// sibling φs of the same block take their value from the same edge
 			for _, x := range ph.Block().Instrs {
-				if ph2, ok := x.(*ssa.Phi); ok {
-					q.subst[ph2] = ph2.Edges[e]
-				} else {
+				ph2, ok := x.(*ssa.Phi)
+				if !ok {
 					break
 				}
+				ns[ph2] = ph2.Edges[e]
+				for k, v := range ns {
+					if v == ssa.Value(ph2) && k != ssa.Value(ph2) {
+						ns[k] = ph2.Edges[e] // σ is applied once: compose
+					}
+				}
 			}
-			goals, _, _, _ := boundsGoals(q, in)
-			if goalIdx >= len(goals) || !q.prove(goals[goalIdx]) {
+			nc := append(append([]*prover{}, ctxs...), contextAtEdge(fn, pr, ph.Block()))
+			if !phiSplitRec(fn, in, goalIdx, extra, ns, nc, depth-1) {
 				all = false
 				break
 			}
